@@ -232,4 +232,120 @@ def _under_even(expr: ast.expr, names) -> bool:
 
 sign_flows.rule_id = "C08.SIGN-FLOWS"
 
-RULES = [trig_domain, arg_pairing, affine_kinds, sign_flows]
+def circumcentre(repo: Repo) -> RuleRun:
+    """'the classic three-point arc length equals that of the circle THROUGH THE THREE POINTS': the centre arc_length_3point
+    constructs is equidistant from its three arguments. The statements that build `centre` are followed in a rational-function
+    domain (vectors of polynomials in the nine coordinates); with c = centre - p_start, a = p_btw - p_start, b = p_end - p_start
+    the identities 2 c.a = a.a and 2 c.b = b.b are checked exactly. A wrong coefficient is invisible when the given point is
+    the arc's mid point - all that tests and the library's own arcs use."""
+    from ..poly import Rat, Vec, eval_alg, sym_vec
+
+    r = RuleRun(PROP, "C08.CIRCUMCENTRE", floor=2, what="the centre built by arc_length_3point is equidistant from p_start, p_btw and p_end (exact identity in a rational-function domain)")
+    fn = repo.func("util.functions.arc_length_3point")
+    r.require(len(fn.params) == 3, "arc_length_3point no longer takes three points")
+    s_, a_, b_ = sym_vec("s"), sym_vec("a"), sym_vec("b")
+    env = {fn.params[0]: s_, fn.params[1]: s_ + a_, fn.params[2]: s_ + b_}
+    centre_name = None
+    for st in fn.node.body:
+        if isinstance(st, ast.Assign) and len(st.targets) == 1 and isinstance(st.targets[0], ast.Name):
+            try:
+                env[st.targets[0].id] = eval_alg(st.value, env)
+            except AnalysisError:
+                env.pop(st.targets[0].id, None)
+                continue
+            if "cent" in st.targets[0].id.lower() and isinstance(env[st.targets[0].id], Vec):
+                centre_name = st.targets[0].id
+    # the centre is whatever the radius vectors are measured from: rad = p - centre
+    if centre_name is None:
+        for st in fn.node.body:
+            if isinstance(st, ast.Assign) and isinstance(st.value, ast.BinOp) and isinstance(st.value.op, ast.Sub) and isinstance(st.value.left, ast.Name) and st.value.left.id == fn.params[0] and isinstance(st.value.right, ast.Name) and isinstance(env.get(st.value.right.id), Vec):
+                centre_name = st.value.right.id
+    r.require(centre_name is not None, "arc_length_3point: the statement that builds the arc's centre is not recognised (vector algebra over the three points)")
+    c = env[centre_name] - s_
+    for label, v in (("p_btw", a_), ("p_end", b_)):
+        lhs = c.dot(v) * Rat(__import__("sa.poly", fromlist=["Poly"]).Poly.const(2)) - v.dot(v)
+        r.check(
+            lhs.is_zero(),
+            fn,
+            f"|centre - p_start| = |centre - {label}| (identity)",
+            f"arc_length_3point: the point it constructs as the arc's centre ('{centre_name}') is NOT equidistant from p_start and {label} for general points - it is the circumcentre only in special "
+            "positions (e.g. when the given point is exactly the arc's mid point), so radius and length are wrong for every other three-point arc",
+            fn.node,
+            key=f"equidistant:{label}",
+        )
+    return r
+
+
+circumcentre.rule_id = "C08.CIRCUMCENTRE"
+
+def adjust_only_when_needed(repo: Repo) -> RuleRun:
+    """'An arc given by origin (with flatness 1 and an equidistant origin) ... lies on the circle the specification describes':
+    arc_from_origin moves the given centre only when the origin is NOT equidistant from the end points or a flatness other than 1
+    is asked for. Abstract run on a toy model in which the three lengths |p1-c|, |p3-c|, |p3-p1| are chosen by the rule (floats
+    on this model only) and everything else is symbolic; observed: whether the routine re-enters itself with an adjusted centre."""
+    from ..peval import NotEvaluable, Raised
+
+    r = RuleRun(PROP, "C08.ADJUST-ONLY-WHEN-NEEDED", floor=5, what="arc_from_origin adjusts the centre iff the origin is not equidistant or flatness != 1 (toy model with chosen lengths)")
+    fn = repo.func("items.edges.arcs.origin.arc_from_origin")
+    cases = [
+        ("equidistant origin, flatness 1, quarter circle", 1.0, 1.0, 1.4142, 1.0, True, False),
+        ("equidistant origin, flatness 1, 178 degree arc", 1.0, 1.0, 1.9997, 1.0, True, False),
+        ("origin 1.0 / 1.5 away from the ends, flatness 1", 1.0, 1.5, 1.2, 1.0, True, True),
+        ("equidistant origin, flatness 2", 1.0, 1.0, 1.2, 2.0, True, True),
+        ("origin not equidistant but adjustment switched off", 1.0, 1.5, 1.2, 1.0, False, False),
+    ]
+    for label, mag1, mag3, chord, flat, adjust, want in cases:
+        reentry = []
+        lengths = {"P1-C": mag1, "P3-C": mag3, "P3-P1": chord}
+
+        def hook(ev, call: ast.Call, name, reentry=reentry, lengths=lengths):
+            last = (name or "").split(".")[-1]
+            if last == "arc_from_origin":
+                reentry.append([ev.eval(a) for a in call.args])
+                return Sym("adjusted-arc")
+            if last == "norm" and call.args:
+                v = ev.eval(call.args[0])
+                if isinstance(v, Sym) and v.name in lengths:
+                    return lengths[v.name]
+                raise NotEvaluable(f"norm of {v!r} in the toy model")
+            if last in ("cross", "unit_vector", "arc_mid"):
+                return Sym(last)
+            return NO_MATCH
+
+        def binop(op, a, b):
+            num = lambda x: isinstance(x, (int, float)) and not isinstance(x, bool)  # noqa: E731
+            if num(a) and num(b):
+                if isinstance(op, ast.Pow):
+                    return float(a) ** float(b) if a >= 0 else NO_MATCH
+                return NO_MATCH
+            if isinstance(a, Sym) and isinstance(b, Sym) and isinstance(op, ast.Sub):
+                return Sym(f"{a.name}-{b.name}")
+            if isinstance(a, Sym) or isinstance(b, Sym):
+                return Sym("geom")
+            return NO_MATCH
+
+        ev = Evaluator(repo=repo, module=fn.module, call_hook=hook)
+        ev.float_arith = True
+        ev.binop_hook = binop
+        try:
+            ev.call_funcinfo(fn, [Sym("P1"), Sym("P3"), Sym("C"), adjust, flat])
+        except Raised as err:
+            raise AnalysisError(f"arc_from_origin raised {err.exc_name} on the toy model ({label})") from err
+        except NotEvaluable as err:
+            raise AnalysisError(f"arc_from_origin not evaluable on the toy model ({label}): {err}") from err
+        got = bool(reentry)
+        r.check(
+            got == want,
+            fn,
+            f"{label}: centre {'adjusted' if got else 'kept'}",
+            f"arc_from_origin, {label} (|p1-c|={mag1}, |p3-c|={mag3}, chord={chord}, flatness={flat}, adjust_center={adjust}): the centre is {'ADJUSTED' if got else 'kept'}, expected "
+            f"{'adjusted' if want else 'kept'} - {'an arc whose origin is already equidistant and whose flatness is 1 must stay on the circle the user described' if not want else 'the documented adjustment does not happen'}",
+            fn.node,
+            key=f"adjust:{label}",
+        )
+    return r
+
+
+adjust_only_when_needed.rule_id = "C08.ADJUST-ONLY-WHEN-NEEDED"
+
+RULES = [trig_domain, arg_pairing, affine_kinds, sign_flows, circumcentre, adjust_only_when_needed]
